@@ -88,6 +88,7 @@ from pynguin.utils.report import (
     render_xml_coverage_report,
 )
 from pynguin.utils.statistics.runtimevariable import RuntimeVariable
+from pynguin.utils.verif_hooks import crash_point
 
 if TYPE_CHECKING:
     from collections.abc import Callable
@@ -665,6 +666,7 @@ def _run() -> ReturnCode:  # noqa: C901, PLR0915
     if (setup_result := _setup_and_check()) is None:
         return ReturnCode.SETUP_FAILED
     executor, test_cluster, constant_provider = setup_result
+    crash_point("after-import")
     # traces slices for test cases after execution
     coverage_metrics = config.configuration.statistics_output.coverage_metrics
     if config.CoverageMetric.CHECKED in coverage_metrics:
@@ -679,6 +681,7 @@ def _run() -> ReturnCode:  # noqa: C901, PLR0915
     )
     _LOGGER.info("Start generating test cases")
     generation_result = algorithm.generate_tests()
+    crash_point("after-search")
     if algorithm.resources_left():
         _LOGGER.info("Algorithm stopped before using all resources.")
     else:
@@ -695,6 +698,7 @@ def _run() -> ReturnCode:  # noqa: C901, PLR0915
     _track_search_metrics(algorithm, generation_result, coverage_metrics)
 
     # Generate assertions FIRST
+    crash_point("assertion-generation")
     _generate_assertions(executor, generation_result, test_cluster)
 
     # Minimize assertions if configured (requires re-instrumentation for checked_instructions)
@@ -730,6 +734,7 @@ def _run() -> ReturnCode:  # noqa: C901, PLR0915
     # Export the generated test suites
     if config.configuration.test_case_output.export_strategy == config.ExportStrategy.PY_TEST:
         try:
+            crash_point("before-export")
             _export_chromosome(
                 generation_result,
                 sut_uses_random=test_cluster.sut_uses_random,
